@@ -215,18 +215,28 @@ impl AST {
                         ops.push(Op::Equal, def.pos);
                     }
                     BinaryExprType::AND => {
+                        let right_pos = def.right.pos().clone();
                         Self::translate_expr(*def.left, ops, root);
                         ops.push(Op::Noop, def.pos);
                         let idx = ops.len() - 1;
                         Self::translate_expr(*def.right, ops, root);
+                        // The right side has to be a boolean too. Negating it
+                        // twice checks that and leaves the value unchanged.
+                        ops.push(Op::Not, right_pos.clone());
+                        ops.push(Op::Not, right_pos);
                         let jptr = (ops.len() - 1 - idx) as i32;
                         ops.replace(idx, Op::And(jptr));
                     }
                     BinaryExprType::OR => {
+                        let right_pos = def.right.pos().clone();
                         Self::translate_expr(*def.left, ops, root);
                         ops.push(Op::Noop, def.pos); // Placeholder
                         let idx = ops.len() - 1;
                         Self::translate_expr(*def.right, ops, root);
+                        // The right side has to be a boolean too. Negating it
+                        // twice checks that and leaves the value unchanged.
+                        ops.push(Op::Not, right_pos.clone());
+                        ops.push(Op::Not, right_pos);
                         let jptr = (ops.len() - 1 - idx) as i32;
                         ops.replace(idx, Op::Or(jptr));
                     }
